@@ -3,7 +3,9 @@
    configuration is (ANY, ANY, (Constant, Name)) LEAVE ; (ANY, ANY, expr) REPLACE, keyword /
    Starred / withitem are transparent wrappers, the gensym is stem "tmp_" from 1000, and the classes
    _is_trivial never hoists are reads of variables, non-node field values, operator tokens and
-   expression contexts only (no node kind whose evaluation is an effect). *)
+   expression contexts only (no node kind whose evaluation is an effect), and the statement
+   _do_transform_node creates for a hoisted operand is the template "<target> = <value>" over two
+   different placeholder names. *)
 From Coq Require Import List String Bool.
 Import ListNotations.
 Require Import MV.Anf.Anf MV.Generated.C18_gen.
@@ -11,6 +13,7 @@ Local Open Scope string_scope.
 
 Theorem tables_ok :
   table_ok visit_table = true /\ default_rules_ok default_rules_gen = true /\ wrappers_ok wrappers_gen = true
-  /\ gensym_stem_gen = "tmp_" /\ gensym_base_gen = 1000 /\ trivial_ok trivial_types_gen = true.
+  /\ gensym_stem_gen = "tmp_" /\ gensym_base_gen = 1000 /\ trivial_ok trivial_types_gen = true
+  /\ hoist_template_ok hoist_template_gen = true.
 Proof. vm_compute. repeat split; reflexivity. Qed.
 Print Assumptions tables_ok.
